@@ -6,8 +6,8 @@
 From Coq Require Import List Arith ZArith Bool.
 Import ListNotations.
 From Acts.Gen Require Import GenState.
-From Acts.Model Require Import Engine Tree.
-From Acts.Proofs Require Import EngineLemmas Findings.
+From Acts.Model Require Import Engine Tree Class.
+From Acts.Proofs Require Import EngineBasics C02Core EngineLemmas Findings Wake Progress.
 
 (* full statement (false): forall w ops e, go w ops = Some e -> stuck e = false *)
 Theorem C01_progress_refuted_needs_cycle : exists w ops e, go w ops = Some e /\ stuck e = true.
@@ -29,8 +29,79 @@ Proof. exact else_ready_iff. Qed.
 Theorem C01_partial_others_never_held : forall e i, n_kind (tnode e i) <> KBranch -> is_ready e i = (true, e).
 Proof. exact other_ready. Qed.
 
+(* partial, the review chain (every engine state that satisfies the engine invariant J, every fuel): whoever closes the
+   last open child of a running workflow / branch / step / act closes that parent as well -- nobody is left running over
+   children that are all done -- and an act a client has closed, with no successor to start, hands over to the review of
+   its parent right after its own message.  The known stuck classes are exactly the hypotheses: a lifecycle-hook act
+   (t_evproc) reviews nobody, an act over a child in error is not counted. *)
+Theorem C01_partial_last_child_closes_workflow_or_branch :
+  forall f cv from e i, J e -> i < ntasks e -> t_evproc (tk e from) = false ->
+  let e0 := update_data e i (outputs e from) in
+  (kind e0 i = KWorkflow \/ kind e0 i = KBranch) -> st e0 i = SRunning ->
+  forallb (child_done e0) (children e0 i) = true ->
+  st (review (S f) cv from e i) i = SCompleted.
+Proof. exact last_child_completes_container. Qed.
+Theorem C01_partial_last_child_closes_step :
+  forall f cv from e i, J e -> i < ntasks e -> t_evproc (tk e from) = false ->
+  let e0 := update_data e i (outputs e from) in
+  kind e0 i = KStep -> st e0 i = SRunning ->
+  forallb (fun j => is_completed (st e0 j)) (children e0 i) = true ->
+  st (review (S f) cv from e i) i = SCompleted.
+Proof. exact last_child_completes_step. Qed.
+Theorem C01_partial_last_child_closes_act :
+  forall f cv from e i, J e -> i < ntasks e -> t_evproc (tk e from) = false ->
+  let e0 := update_data e i (outputs e from) in
+  kind e0 i = KAct -> st e0 i = SRunning ->
+  (forall j, In j (children e0 i) -> is_completed (st e0 j) = true /\ st e0 j <> SError /\ st e0 j <> SSkipped) ->
+  st (review (S f) cv from e i) i = SCompleted.
+Proof. exact last_child_completes_act. Qed.
+Theorem C01_partial_closed_act_reviews_its_parent :
+  forall f cv e i, kind e i = KAct -> is_completed (st e i) = true -> st e i <> SSkipped ->
+  st e i <> SCompleted \/ n_next (tnode e i) = None ->
+  let e2 := emit f (update_data e i cv) i in
+  t_evproc (tk e2 i) = false ->
+  next (S f) cv e i = match parent e2 i with Some p => review f cv i e2 p | None => e2 end.
+Proof. exact closed_act_reviews_its_parent. Qed.
+(* the premises hold in a real state: one step, one act, the client has just completed the act *)
+Example C01_wake_premises_hold : option_map (fun e =>
+    let e0 := update_data e 1 (outputs e 2) in
+    (Nat.ltb 1 (ntasks e), t_evproc (tk e 2), nkind_beq (kind e0 1) KStep, is (st e0 1) SRunning,
+     forallb (fun j => is_completed (st e0 j)) (children e0 1), children e0 1,
+     nkind_beq (kind e 2) KAct, n_next (tnode e 2), parent (emit 20 (update_data e 2 []) 2) 2)) e_answered
+  = Some (true, false, true, true, true, [2], true, None, Some 1).
+Proof. exact wake_premises. Qed.
+
+(* the property itself on a class of workflows, for every run (Progress.v): a workflow of steps in sequence whose acts are
+   interactive (irq) acts -- frag_nodes: no conditions, branches, catches, setup / hooks or function acts; any inputs,
+   outputs and timeout declarations -- under any schedule (OSched k picks any queued task, ODrain runs them all) and any
+   accepted or rejected complete / submit / remove actions on any task at any moment (frag_op) is never stuck: when
+   nothing is queued and the process has not ended, some act is interrupted, i.e. waits for a client.  No hypothesis on
+   fuel: in this class the review chain is act -> step -> workflow.  The invariant is that every open task is queued, or
+   interrupted, or running over an open task whose parent it is. *)
+Theorem C01_progress_sequential_interactive :
+  forall ns c0 ops, frag_nodes ns = true -> forallb frag_op ops = true -> stuck (run ns c0 ops) = false.
+Proof. exact sequential_interactive_never_stuck. Qed.
+Theorem C01_progress_sequential_interactive_built :
+  forall w ops, option_map frag_nodes (build_tree 30 w) = Some true -> forallb frag_op ops = true ->
+  option_map stuck (go w ops) = Some false.
+Proof. exact go_never_stuck. Qed.
+(* the class is inhabited and its runs are not trivial: two steps, three acts, outputs; at rest after the start act 2
+   waits; after complete / submit / remove (one step picked by the scheduler out of order) the process has completed *)
+Example C01_class_inhabited :
+  option_map frag_nodes (build_tree 30 w_seq) = Some true /\ forallb frag_op ops_seq = true /\
+  option_map (fun e => (queue e, pstate e, st e 2)) (go w_seq []) = Some ([], SRunning, SInterrupt) /\
+  option_map (fun e => (queue e, pstate e, map (fun t => st e t) (all_tasks e))) (go w_seq ops_seq)
+    = Some ([], SCompleted, [SCompleted; SCompleted; SCompleted; SSubmitted; SCompleted; SRemoved]).
+Proof. split; [exact w_seq_in_class|]. split; [exact ops_seq_in_class|]. exact w_seq_runs. Qed.
+
 Print Assumptions C01_progress_refuted_needs_cycle.
 Print Assumptions C01_progress_refuted_hook_act.
 Print Assumptions C01_partial_needs_release.
 Print Assumptions C01_partial_else_release.
 Print Assumptions C01_partial_others_never_held.
+Print Assumptions C01_partial_last_child_closes_workflow_or_branch.
+Print Assumptions C01_partial_last_child_closes_step.
+Print Assumptions C01_partial_last_child_closes_act.
+Print Assumptions C01_partial_closed_act_reviews_its_parent.
+Print Assumptions C01_progress_sequential_interactive.
+Print Assumptions C01_progress_sequential_interactive_built.
